@@ -128,6 +128,10 @@ def coerce_arg(eng, st, v, want, key, pname, line):
                 return sx.V(ty, inner.t, none=z3.BoolVal(False))
             except sx.OutOfSubset:
                 pass
+        if ty.k == 'enum' and v.ty.k == 'py' and isinstance(v.py, tuple) and v.py[0] == 'attr':
+            codes = {'up': 1, 'fx': 2, 'fr': 3, 'lo': 4, 'maximize': 11, 'minimize': 12, 'itr': 21, 'msg': 31, 'log': 32}
+            if v.py[2] in codes:
+                return sx.V(ty, z3.IntVal(codes[v.py[2]]))
         if ty.k == 'any':
             return sx.V(ty, v.t if v.t is not None else z3.IntVal(0))
         if ty.k == 'dict' and v.ty.k == 'dict':
